@@ -6,7 +6,8 @@ from .. import streams as S
 def run(ctx):
     rng = ctx.rng
     ctx.rule = ("auto stream: for every data type, lengths 0..9, 999, 1000, 1001, 1500 and random, every level 0..12, sequences "
-                "with trends of polynomial degree 0..3, noise, sparse, constant: auto_compressor_config / auto_compress / "
+                "with trends of polynomial degree 0..3, noise, sparse, constant, degree 9..11 polynomials and slow sines, and heads of "
+                "1000..2100 numbers (constant / trending) followed by tails of 1..1700 numbers of a different nature: auto_compressor_config / auto_compress / "
                 "auto_decompress run under catch_unwind; decisive: no panic, returned level = requested level, delta order in "
                 "0..=7, auto round trip equal bit for bit; the trial sizes reproduced through the public Compressor API are fed "
                 "to the Lean model of the chooser (first local minimum) and the chosen order compared. non-trivial = length "
@@ -37,6 +38,20 @@ def run(ctx):
                 xs = [G.from_signed_val(dt, v) for v in seq]
                 lines.append("auto %s %d %s" % (dt, level, G.hexlist(xs)))
                 info.append((dt, len(xs), level, name))
+    # head/tail structure around the sampling window (the chooser looks at the first AUTO_DELTA_LIMIT = 1000 numbers):
+    # constant or trending heads of 1000..2100 numbers followed by short or long tails of a different nature
+    for dt in (S.ALL_DT if not ctx.quick else [rng.choice(S.ALL_DT) for _ in range(6)]):
+        for _ in range(2 if ctx.quick else 8):
+            nh = rng.choice([1000, 1001, 1200, 1500, 2000, 2100])
+            nt = rng.choice([1, 2, 300, 450, 999, 1000, 1700])
+            hk = rng.choice(["const", "const", "poly", "small"])
+            tk = rng.choice(["uniform", "poly", "small", "smooth"])
+            head, _ = G.gen_seq(rng, dt, nh, hk)
+            tail, _ = G.gen_seq(rng, dt, nt, tk)
+            xs = head + tail
+            level = rng.choice([0, 6, 8, 12])
+            lines.append("auto %s %d %s" % (dt, level, G.hexlist(xs)))
+            info.append((dt, len(xs), level, "head-%s+tail-%s" % (hk, tk)))
     ans = C.harness(lines, timeout=1800)
     mlines, midx = [], []
     for i, (line, (dt, n, level, kind), a) in enumerate(zip(lines, info, ans)):
